@@ -10,9 +10,22 @@ def run(ctx):
     if exe is None:
         raise vlib.CheckError("harness build failed:\n" + log[-3000:])
     big = ctx.tier == "thorough"
-    args = ["-seed", ctx.seed, "-hist", 4000 if big else 300, "-find", 150 if big else 12, "-commit", 6000 if big else 400,
-            "-pure", 60000 if big else 4000, "-workers", 12, "-corpus", os.path.join(vlib.ROOT, "corpus", "c03.tsv")]
-    res = vlib.run_pipeline(ctx, exe, args, mcheck)
+    corpus = os.path.join(vlib.ROOT, "corpus", "c03.tsv")
+    # the thorough tier runs the harness in several processes (one Atomix test cluster each: memory stays bounded)
+    chunks = 8 if big else 1
+    res = None
+    for i in range(chunks):
+        args = ["-seed", int(ctx.seed) + 1000 * i, "-hist", 300 if big else 200, "-find", 20 if big else 10, "-commit", 800 if big else 400,
+                "-pure", 8000 if big else 4000, "-workers", 12, "-corpus", corpus]
+        r = vlib.run_pipeline(ctx, exe, args, mcheck)
+        if res is None:
+            res = r
+        else:
+            for k, v in r["stats"].items():
+                res["stats"][k] = res["stats"].get(k, 0) + v
+            res["mismatches"] += r["mismatches"]
+            res["specviols"] += r["specviols"]
+            res["nlines"] += r["nlines"]
     cross_check_in_coq(ctx, 600 if big else 150)
     vlib.judge(ctx, res, "Merge.v/CfgStore.v/Wildcard.v <-> AddDeleteChildren, PrunePathValues, MatchWildcardRegexp, configuration store writes, "
                          "proposal reconcileCommit, Get filter")
